@@ -40,8 +40,9 @@ NOTES = {
  'C17-B': 'missed at first; server started with --lt-options, proofreader argv compared',
  'C02-C': 'not seen by C02 (which runs without replacements); caught by C13, whose property it also breaks',
  'C02-D': 'not seen by C02 (single-language runs); caught by C12 (word position in the part)',
- 'C05-C': 'missed at first; weak separator claim for the text of simple generating macros (\\LaTeX, \\ref, \\gls) added',
+ 'C05-C': 'missed at first; weak separator claim for the text of simple generating macros (\\LaTeX, \\ref, \\gls) added; lost again after later generator changes until arguments consisting of exactly one such control word were generated on purpose',
  'C05-D': 'missed at first; otherlanguage / otherlanguage* environments added to the catalogue',
+ 'C07-C': 'caught by luck of the draw at first and missed after later generator changes; every catalogued macro is now run with an argument that begins with a language switch, in multi-language mode',
  'C07-D': 'missed at first; extraction lists naming zero-argument macros added to the option vectors',
  'C08-C': 'missed at first; \\LTinput of an empty / comment-only file in front of the fault added',
  'C08-D': 'missed at first; \\LTinput of an undecodable file added as fault kind',
